@@ -1,4 +1,189 @@
-def rules_override_scope(ctx, prefix="R"):
-    pass
+"""C10 - a substituted start value only affects the first forward pass (DESIGN.md section 5, C10)."""
+from rules import timescale_table as TT
+from rulelib import trace_of, calls
+import pse
+from pse import show
+
+TSP = "mina_core::time_scale::TimeScalePosition"
+
+
+def prepare_frame_table(ctx, F):
+    """rows of prepare_frame keyed by the phase returned by get_position"""
+    body = F.one(crate="mina_core", name="prepare_frame")
+    eng = pse.Engine(F, inline=lambda fn, b: b["name"] != "get_position")
+    paths = eng.run(body)
+    ctx.count_paths(paths, body)
+    rows = []
+    for p in paths:
+        gp = calls(p, lambda e: e["fn"]["name"] == "get_position")
+        phase = None
+        conds = {}
+        for (t, v, s) in p.conds:
+            if t[0] == "discr" and gp and t[1] == gp[0]["result"] and not isinstance(v, tuple):
+                phase = {int(d): n for n, d in t[2]}.get(v)
+            if t[0] == "field" and t[2] in ("is_repeating", "is_reversing"):
+                conds[t[2]] = v
+        rows.append({"path": p, "phase": phase, "gp": gp, "conds": conds})
+    return body, rows
+
+
+def flag_value(flagterm, rep, rev, conds):
+    """evaluate the override flag under an assignment of (is_repeating, is_reversing); None if the row
+    contradicts the assignment"""
+    if conds.get("is_repeating", rep) != rep or conds.get("is_reversing", rev) != rev:
+        return None
+
+    def ev(t):
+        if pse.is_const(t) and isinstance(t[2], bool):
+            return t[2]
+        if t[0] == "field" and t[2] == "is_repeating":
+            return bool(rep)
+        if t[0] == "field" and t[2] == "is_reversing":
+            return bool(rev)
+        if t[0] == "un" and t[1] == "Not":
+            x = ev(t[2])
+            return None if x is None else (not x)
+        if t[0] == "bin" and t[1] in ("BitAnd", "BitOr"):
+            a, b = ev(t[2]), ev(t[3])
+            if a is None or b is None:
+                return None
+            return (a and b) if t[1] == "BitAnd" else (a or b)
+        return None
+    return ev(flagterm)
+
+
+def rules_prepare_frame(ctx, prefix="R1", F=None):
+    """phase mapping: NotStarted -> (0.0, override on); Ended(t) -> (t, off); Active(t, s) -> (t, !rep && !rev)"""
+    F = F or ctx.facts
+    body, rows = prepare_frame_table(ctx, F)
+    seen = set()
+    table = {}
+    for r in rows:
+        p = r["path"]
+        if p.ret[0] != "agg" or p.ret[3] != "Some":
+            continue
+        tup = dict(p.ret[4][0][1][4])
+        pos, flag = tup["0"], tup["2"]
+        ph = r["phase"]
+        seen.add(ph)
+        if ph == "NotStarted":
+            ok = pos == ("const", "f32", ("f", 0, 0.0)) and flag == pse.mk_bool(True)
+            ctx.ob(prefix, "phase/NotStarted", ok, "before the start the position is 0.0 with the start override on; "
+                   "got (%s, %s)" % (show(pos), show(flag)), body["span"], trace_of(p), what="not-started-mapping")
+        elif ph == "Ended":
+            ok = pos == ("field", ("variant", r["gp"][0]["result"], "Ended"), "0") and flag == pse.mk_bool(False)
+            ctx.ob(prefix, "phase/Ended", ok, "after the end the terminal position is passed on with the override off; "
+                   "got (%s, %s)" % (show(pos), show(flag)), body["span"], trace_of(p), what="ended-mapping")
+        elif ph == "Active":
+            ok = pos == ("field", ("variant", r["gp"][0]["result"], "Active"), "0")
+            ctx.ob(prefix, "phase/Active/position[%s]" % sorted(r["conds"].items()), ok,
+                   "while active the scale's position is passed on unchanged; got %s" % show(pos), body["span"],
+                   trace_of(p), what="active-position")
+            for rep in (0, 1):
+                for rev in (0, 1):
+                    fv = flag_value(flag, rep, rev, r["conds"])
+                    if fv is None and all(r["conds"].get(k, x) == x for k, x in (("is_repeating", rep), ("is_reversing", rev))):
+                        ctx.ob(prefix, "flag/Active[rep=%d,rev=%d]" % (rep, rev), False,
+                               "override flag is not a boolean function of the loop state: %s" % show(flag), body["span"],
+                               trace_of(p), what="override-flag-shape")
+                    elif fv is not None:
+                        table.setdefault((rep, rev), set()).add(fv)
+    for (rep, rev), vals in sorted(table.items()):
+        want = (not rep) and (not rev)
+        ctx.ob(prefix, "flag/Active[rep=%d,rev=%d]" % (rep, rev), vals == {want},
+               "start override must be enabled exactly on the first forward pass (!repeating && !reversing): "
+               "for repeating=%d reversing=%d it is %s" % (rep, rev, sorted(vals)), body["span"], what="override-flag-wrong")
+    ctx.ob(prefix, "flag/table-complete", set(table) == {(0, 0), (0, 1), (1, 0), (1, 1)} and
+           seen >= {"NotStarted", "Active", "Ended"}, "all phases and loop states must be covered (%s, %s)"
+           % (sorted(table), sorted(x for x in seen if x)), body["span"], what="override-table-incomplete")
+    none_rows = [r for r in rows if r["path"].ret[0] == "agg" and r["path"].ret[3] == "None"]
+    ok = len(none_rows) == 1 and not none_rows[0]["gp"]
+    ctx.ob(prefix, "empty-boundary-table", ok,
+           "an empty timeline yields None before the time scale is consulted", body["span"], what="empty-timeline")
+
+
+def rules_get_frame(ctx, prefix="R2", F=None):
+    """the override frame replaces only frame 0, only when the flag is set and an override exists"""
+    F = F or ctx.facts
+    b = F.one(crate="mina_core", name="get_frame", impl_self_adt="mina_core::timeline_helpers::SubTimeline")
+    eng = pse.Engine(F)
+    ps = eng.run(b)
+    ctx.count_paths(ps, b)
+    SELF = ("deref", ("param", 1))
+    a = F.adt("mina_core::timeline_helpers::SubTimeline")
+    ov = [f["name"] for f in a["variants"][0]["fields"] if f["ty"].startswith("core::option::Option<")]
+    fr = [f["name"] for f in a["variants"][0]["fields"] if "SplitKeyframe" in f["ty"] and f["ty"].startswith("alloc::vec::Vec<")]
+    if len(ov) != 1 or len(fr) != 1:
+        from facts import AnchorLost
+        raise AnchorLost("SubTimeline override/frames fields")
+    n_over = 0
+    for p in ps:
+        if p.outcome != "return":
+            continue
+        flag = idx0 = has = None
+        for (t, v, s) in p.conds:
+            if t == ("param", 3):
+                flag = v
+            if t[0] == "bin" and t[1] == "Eq" and t[2] == ("param", 2) and t[3] == ("const", "usize", 0):
+                idx0 = v
+            if t[0] == "discr" and pse.contains(t, ("field", ov[0])) or (t[0] == "discr" and pse.contains(t, ("field", SELF, ov[0]))):
+                has = v
+        r = p.ret
+        uses_override = pse.contains(r, ("field", ov[0])) or pse.contains(r, ("field", SELF, ov[0]))
+        if uses_override:
+            n_over += 1
+            ctx.ob(prefix, "get_frame/override-scope", flag == 1 and idx0 == 1 and has == 1,
+                   "the override frame may be returned only for flag set, index 0 and override present; row "
+                   "flag=%s index0=%s present=%s" % (flag, idx0, has), b["span"], trace_of(p), what="override-leaks")
+        else:
+            # plain lookup of the requested index in the frames
+            g = [e for e in calls(p, lambda e: e["fn"]["name"] == "get")]
+            ok = len(g) == 1 and g[0]["descs"][0] == ("&", ("field", SELF, fr[0])) and r == g[0]["result"]
+            want_idx = ("const", "usize", 0) if (flag == 1 and idx0 == 1) else ("param", 2)
+            ok = ok and g[0]["descs"][1] in (want_idx, ("param", 2))
+            ctx.ob(prefix, "get_frame/plain[%s,%s,%s]" % (flag, idx0, has), ok,
+                   "without override the frame at the requested index is returned; returns %s" % show(r), b["span"],
+                   trace_of(p), what="plain-frame-wrong")
+    ctx.ob(prefix, "get_frame/override-row-exists", n_over == 1, "exactly one row yields the override (%d)" % n_over,
+           b["span"], what="override-row-missing")
+
+
+def rules_loop_state(ctx, prefix="R3", tab=None):
+    tab = tab or TT.build(ctx)
+    S, D = tab["S"], tab["D"]
+    quot = ("bin", "Div", S, D, "f32")
+    one = ("const", "f32", ("f", 0x3F800000, 1.0))
+    ge1 = pse.mk_bin("Le", one, quot)
+    gt1 = pse.mk_bin("Lt", one, quot)
+    for r in tab["rows"]:
+        if r.kind != "Active" or r.env.infeasible:
+            continue
+        rep = dict(r.loop[4]).get("is_repeating")
+        hold = any(t[0] == "bin" and t[1] == "Eq" and t[2][0] == "bin" and t[2][1] == "Rem" and v == 1 for (t, v, s) in r.path.conds) \
+            and any(t == ge1 and v == 1 for (t, v, s) in r.path.conds)
+        if r.repeat == "None":
+            ok = rep == pse.mk_bool(False)
+            want = "false"
+        elif hold:
+            # idioms: quot > 1, or time-since-delay > D
+            ok = rep in (gt1, pse.mk_bin("Lt", D, S))
+            want = "quot > 1 (the instant at the end of the first pass still belongs to it)"
+        else:
+            ok = rep in (ge1, pse.mk_bin("Le", D, S))
+            want = "quot >= 1"
+        ctx.ob(prefix, "is_repeating/" + r.label, ok, "is_repeating must be %s; it is %s" % (want, show(rep)),
+               tab["body"]["span"], trace_of(r.path), what="repeating-flag-wrong")
+
+
+def rules_override_scope(ctx, prefix="R6"):
+    rules_prepare_frame(ctx, prefix)
+    rules_get_frame(ctx, prefix)
+
+
 def check(ctx):
-    pass
+    rules_prepare_frame(ctx, "R1")
+    rules_get_frame(ctx, "R2")
+    rules_loop_state(ctx, "R3")
+    ctx.notes.append("not decided: 'yields exactly v up to the delay' beyond C02/R1 + C13 endpoint facts; comparison "
+                     "with an un-substituted twin at all times")
+    ctx.assumptions.append("division is monotone and correctly rounded, so time-since-delay >= D implies quot >= 1")
